@@ -793,14 +793,19 @@ class ClientSession:
                             #
                             # If the payload is already consumed and cannot be replayed,
                             # fail fast instead of silently sending an empty body.
-                            if req._body.consumed:
-                                resp.close()
-                                raise ClientPayloadError(
-                                    "Cannot follow redirect with a consumed request "
-                                    "body. Use bytes, a seekable file-like object, "
-                                    "or set allow_redirects=False."
-                                )
-                            data = req._body
+                            #
+                            # A request that had no body keeps having none: reusing
+                            # its (empty) payload would add Content-Length: 0 and
+                            # Content-Type: application/octet-stream to a GET/HEAD.
+                            if data is not None:
+                                if req._body.consumed:
+                                    resp.close()
+                                    raise ClientPayloadError(
+                                        "Cannot follow redirect with a consumed request "
+                                        "body. Use bytes, a seekable file-like object, "
+                                        "or set allow_redirects=False."
+                                    )
+                                data = req._body
 
                         r_url = resp.headers.get(hdrs.LOCATION) or resp.headers.get(
                             hdrs.URI
